@@ -27,6 +27,12 @@ def gen(rng, tier):
             minr = min(min(row) for row in m["R"])
             bs = gen_beliefs(rng, 1, 1)
             out.append("plan %s %s 2 3 %s %d %s %d %s" % (alg, repr_, Qs([minr]), rng.randrange(1 << 30), fmt_pomdp(m), len(bs), " ".join(Qs(b) for b in bs)))
+    # long horizons on tiny models: the sizes of the lists go up AND down from one horizon to the next
+    for k in range({"quick": 50, "thorough": 200, "search": 100}[tier]):
+        m = gen_pomdp(rng, 2, 2, 2, gammas=(F(1, 2), F(3, 4), F(1)))
+        bs = gen_beliefs(rng, 2, 3)
+        out.append("plan %s %s %d 3 %s %d %s %d %s" % (rng.choice(["ip", "ip", "wit"]), rng.choice(["dense", "sparse"]), rng.randint(4, 6),
+                   Qs([0]), rng.randrange(1 << 30), fmt_pomdp(m), len(bs), " ".join(Qs(b) for b in bs)))
     for k in range(n):
         S = rng.choice([2, 2, 3, 3]); A = rng.choice([1, 2, 2, 3]); O = rng.choice([1, 2, 2, 3, 4])
         m = gen_pomdp(rng, S, A, O, gammas=(F(1, 2), F(3, 4), F(3, 4), F(1)))
@@ -42,6 +48,10 @@ def gen(rng, tier):
             out.append("csbb %s %d %s %d %s" % (fmt_pomdp(m), nw, " ".join(Qs(v) for v in wv), len(bs), " ".join(Qs(b) for b in bs)))
             continue
         alg = rng.choice(["ip", "ip", "wit", "ls", "pbvi", "pbvi", "pbviw", "pbviw", "perseus", "perseus", "qmdp"])
+        if alg in ("ip", "wit") and rng.random() < 0.4:     # long horizons on tiny models: list sizes go up AND down
+            S, A, O = 2, 2, 2
+            m = gen_pomdp(rng, S, A, O, gammas=(F(1, 2), F(3, 4), F(1)))
+            h = rng.randint(4, 5)
         if alg == "pbviw": h = min(h, 2 if O <= 2 else 1)
         if alg in ("perseus", "qmdp") and m["g"] == 1:   # infinite-horizon bounds need discount < 1
             m["g"] = F(3, 4)
